@@ -25,7 +25,7 @@ class World:
     run_timeout = 60.0
     required_probes = ["defective_generator", "shifted_start", "coarser_step",
                        "edit_between_make_and_use", "reassign_rate", "zero_rate",
-                       "refused_diagonal", "unaligned_shift", "complex_spectrum", "main_axis_start_nonzero"]
+                       "refused_diagonal", "unaligned_shift", "complex_spectrum", "main_axis_start_nonzero", "propagation_matrix_with_corrections"]
     required_faults = ["refused_diagonal_set", "refused_bad_assignment"]
     components = {
         "real": ["quantarhei RateMatrix.set_rate", "PopulationPropagator.propagate",
@@ -86,7 +86,8 @@ class World:
                 m = rng.choice([1, 2, 3, 4, 5])
                 s = rng.choice([0, 0, 1, 2, 3, 5, 7])
                 ln = rng.randint(2, 12)
-                ops.append({"op": "prop_matrix", "m": m, "s": s, "len": ln})
+                ops.append({"op": "prop_matrix", "m": m, "s": s, "len": ln, "corr": rng.choice([-1, -1, -1, 0, 1, 2]),
+                            "exact": rng.random() < 0.5})
         return {"N": N, "shape": shape, "dt": dt, "Nt": Nt, "t0": t0, "ops": ops,
                 "init": ([[round(rng.uniform(0, kscale / N), 6) for _ in range(N)] for _ in range(N)]
                          if shape == "from_data" else None)}
@@ -270,8 +271,16 @@ class World:
                     ctx.probe("shifted_start")
                     if s % m != 0:
                         ctx.probe("unaligned_shift")
+                corr = int(op.get("corr", -1))
+                extra = None
                 try:
-                    U = prop.get_PropagationMatrix(sub)
+                    if corr >= 0:
+                        U = prop.get_PropagationMatrix(sub, corrections=corr, exact=bool(op.get("exact")))
+                        if isinstance(U, tuple):
+                            U, extra = U[0], U[1]
+                        ctx.probe("propagation_matrix_with_corrections")
+                    else:
+                        U = prop.get_PropagationMatrix(sub)
                     raised = None
                 except Exception as e:
                     raised = e
@@ -300,6 +309,17 @@ class World:
                 cls = classify(Know)
                 check(ok_any, "prop-matrix-equals-exponential",
                       lambda: "max|U-expm(K t)|=%g (generator class %s, m=%d s=%d len=%d)" % (worst, cls, m, s, ln))
+                # the request must leave the rate matrix alone (it is shared with the caller)
+                check_matrix("after prop_matrix %d" % idx)
+                if extra is not None and t0 == 0.0 and s == 0:
+                    Uc0 = numpy.asarray(extra[0] if isinstance(extra, tuple) else extra)
+                    K = cand[0] if ok_any and len(cand) == 1 else Know
+                    ref0 = numpy.zeros((N, N, ln))
+                    for a in range(N):
+                        ref0[a, a, :] = numpy.exp(K[a, a] * numpy.array(sub.data))
+                    if len(cand) == 1:
+                        check(Uc0.shape == ref0.shape and float(numpy.max(numpy.abs(Uc0 - ref0))) <= 1e-10, "zero-order-correction",
+                              lambda: "op %d: zeroth-order propagation matrix differs from exp(K_ii t)" % idx)
                 used += 1
                 ctx.ev(idx, kind, m, s, ln, fingerprint(U))
                 ctx.cov(N, "prop_matrix", cls, m > 1, s > 0, s % m != 0, min(edits, 6))
